@@ -362,6 +362,53 @@ fn law_cases(ctx: &Ctx) -> Vec<(Case, bool)> {
     out
 }
 
+// Items of one pattern are bound left to right, and a computed key is an
+// ordinary expression evaluated when its item's turn comes: it may read a
+// name that an earlier item of the same pattern has just bound (the
+// tagged-record idiom `{"kind": kind, kind: payload, ..meta}`).
+fn dependent_key_cases(ctx: &Ctx) -> Vec<(Case, bool)> {
+    let mut out = vec![];
+    let msgs = [
+        obj(vec![pair("kind", string("text")), pair("text", string("hello")), pair("id", int(7))]),
+        obj(vec![pair("kind", string("code")), pair("code", list(vec![int(1), int(2)])), pair("text", string("t")), pair("id", int(8))]),
+        obj(vec![pair("kind", string("none")), pair("id", int(9))]),
+    ];
+    let pats: Vec<(Expr, Vec<&str>, &str)> = vec![
+        (obj(vec![Prop::Pair(string("kind"), var("kind")), Prop::Pair(var("kind"), var("payload")), Prop::Single{e: var("meta"), spread: false, collect: true}]), vec!["kind", "payload", "meta"], "key reads the name bound by the item before it, with rest"),
+        (obj(vec![Prop::Pair(string("kind"), var("kind")), Prop::Pair(var("kind"), var("payload"))]), vec!["kind", "payload"], "key reads the name bound by the item before it"),
+        (obj(vec![Prop::Single{e: var("kind"), spread: false, collect: false}, Prop::Pair(bin(Op::Sum, var("kind"), string("")), var("payload")), Prop::Single{e: var("meta"), spread: false, collect: true}]), vec!["kind", "payload", "meta"], "shorthand then a key computed from it"),
+        (obj(vec![Prop::Pair(string("kind"), var("kind")), Prop::Pair(string("id"), var("n")), Prop::Pair(var("kind"), list_items(vec![item(var("first")), item(var("more"))], true))]), vec!["kind", "n", "first", "more"], "dependent key with a nested list pattern"),
+        (list(vec![var("kind"), obj(vec![Prop::Pair(var("kind"), var("payload")), Prop::Single{e: var("meta"), spread: false, collect: true}])]), vec!["kind", "payload", "meta"], "key in a nested object pattern reads a name bound by the enclosing list pattern"),
+    ];
+    for (pi, (pat, names, label)) in pats.iter().enumerate() {
+        for (mi, msg) in msgs.iter().enumerate() {
+            let src = if pi == 4 { list(vec![string(["text", "code", "none"][mi]), msg.clone()]) } else { msg.clone() };
+            for outer in [false, true] {
+                let names: Vec<String> = names.iter().map(|s| s.to_string()).collect();
+                let p = Pat{e: pat.clone(), names: names.clone(), simple: false, has_rest: true, label: "dependent key"};
+                for (pos, stmts) in positions(&p, &src) {
+                    let mut all = vec![];
+                    if outer && pos != "assignment" {
+                        // An outer variable of the same name holding a key
+                        // that exists too: a key resolved too early finds it.
+                        all.push(declare(var("kind"), string("id")));
+                        all.push(block(stmts));
+                    } else if outer {
+                        continue;
+                    } else {
+                        all = stmts;
+                    }
+                    ctx.label("pattern with a key that depends on an earlier item");
+                    if let Some(c) = mk_case(ctx, "dependent_key", all, format!("{label}, in {pos} position{}", if outer { ", outer `kind` in scope" } else { "" }), true) {
+                        out.push(c);
+                    }
+                }
+            }
+        }
+    }
+    out
+}
+
 // Random pattern trees (lists up to 40 wide, objects over a pool of keys that
 // may repeat, nesting to depth 3, optional rest at every level) against
 // sources built to fit them or to miss in one place, in the four binding
@@ -582,6 +629,7 @@ pub fn run(ctx: &Ctx) {
     ctx.set_extra("pattern_cases", serde_json::json!(cases.len()));
     let via = Via::Fast;
     ctx.judge_all(cases, via, None);
+    ctx.judge_all(dependent_key_cases(ctx), Via::Cli, None);
     let cases = call_cases(ctx);
     ctx.set_extra("call_cases", serde_json::json!(cases.len()));
     ctx.judge_all(cases, Via::Cli, None);
